@@ -335,3 +335,8 @@ PROOF_MODULES = PROOF_MODULES + ['Compute.Lemmas.InterpRounding', 'Compute.Props
 REQUIRED_THEOREMS = REQUIRED_THEOREMS + ['Cv.Rounding2.interpOne_error', 'Cv.Rounding2.interpOne_error_16u', 'Cv.Rounding2.interpOne_between_rounded', 'Cv.Rounding2.interpOne_knot_exact']
 NOT_PROVED = [x for x in NOT_PROVED if not any(k in str(x) for k in ('floating-point rounding of the interior', 'exactness at knots in IEEE'))]
 NOT_PROVED = NOT_PROVED + ['rounding of the extrapolation branch (oracle only); for targets inside the range the rounded result is proved within gamma_8 max|y| (<= 16u) of the line, between the ordinates up to that, and EXACT at every knot, in the standard model (Props/Rounding2)']
+
+# --- source tie (translator tools/rs2lean.py: the straight-line functions of this property are regenerated from /repo/src on every run
+# into lean/Compute/Generated/SrcC16.lean and proved equal to the hand model in Props/SrcTieC16.lean)
+from . import srctie
+srctie.wire(globals(), 'C16')
